@@ -101,7 +101,9 @@ RS_BLOCKS = {
 BLOCKS = {"py": PY_BLOCKS, "ts": TS_BLOCKS, "rs": RS_BLOCKS}
 PRELUDE = {"py": "import os\nimport re\n\n\n", "ts": "", "rs": "use std::fs;\n\n"}
 HEADS = ["", "", "", "#!/usr/bin/env python3\n", "#!/usr/bin/python\n", "#!/usr/bin/env python\n", "#!/bin/bash\n", "#! python -u\n",
-         "# !/usr/bin/python\n", "#!/usr/bin/env node\n", " #!/usr/bin/python\n", "#!/usr/bin/env PYTHON\n", "#!/opt/py/bin/run\n"]
+         "# !/usr/bin/python\n", "#!/usr/bin/env node\n", " #!/usr/bin/python\n", "#!/usr/bin/env PYTHON\n", "#!/opt/py/bin/run\n",
+         "#!/usr/bin/env deno run\n", "#!/usr/bin/env ruby\n", "#!/bin/sh\n", "#!/usr/bin/env ts-node\n", "#!/usr/bin/env bpython\n",
+         "#!/opt/mypythonista/bin/run\n", "#!/usr/bin/env -S cargo +nightly -Zscript\n", "#!/usr/bin/env rust-script\n"]
 STEMS = ["mod", "widget", "svc_core", "data.v2", "X", "thing.min", "py", "a.py"]
 EXT_MAPPED = [".py", ".js", ".ts", ".tsx", ".jsx", ".java", ".go", ".rs"]
 EXT_UNMAPPED = ["", "", ".txt", ".md", ".sh", ".pyw", ".pyi", ".json", ".c", ".", ".py.bak", ".PY.txt", ".tss", ".p", ".rst", ".yaml.j2", ".rs~"]
@@ -137,11 +139,26 @@ VALID = {
     "stringly_typed": [{"min_occurrences": 1}, {"require_cross_file": False}],
     "collection_pipeline": [{"min_continues": 2}, {"min_continues": 1}],
     "file_placement": [DENY_B, {"global_deny": [{"pattern": ".*_a.*", "reason": "no a files"}]}],
-    "print_statements": [{"allow_in_scripts": False}],
-    "performance": [{"enabled": True}],
-    "lbyl": [{"detect_dict_key": True}],
-    "cqs": [{"min_operations": 1}],
+    "print_statements": [{"allow_in_scripts": False}, {"enabled": False}],
+    "performance": [{"enabled": True}, {"enabled": False}],
+    "lbyl": [{"detect_dict_key": True}, {"detect_dict_key": False}, {"enabled": False}],
+    "cqs": [{"min_operations": 1}, {"enabled": False}],
+    "clone_abuse": [{"detect_clone_chain": False}, {"detect_clone_in_loop": False}, {"enabled": False}],
+    "unwrap_abuse": [{"allow_expect": True}, {"enabled": False}],
+    "blocking_async": [{"detect_sleep_in_async": False}, {"detect_fs_in_async": False}, {"enabled": False}],
+    "method_property": [{"enabled": False}],
+    "file_header": [{"ignore": ["**/*_a*"]}],
 }
+PKG_ORDER = ["blocking_async", "clone_abuse", "collection_pipeline", "cqs", "dry", "file_header", "file_placement", "lazy_ignores", "lbyl", "magic_numbers",
+             "method_property", "nesting", "performance", "print_statements", "srp", "stateless_class", "stringly_typed", "unwrap_abuse"]
+# (own package, visible non-default own option, content kind, extension, command) for the section presence grid
+OWN_VISIBLE = [
+    ("clone_abuse", {"detect_clone_chain": False}, "rs", ".rs", "clone-abuse"), ("unwrap_abuse", {"enabled": False}, "rs", ".rs", "unwrap-abuse"),
+    ("blocking_async", {"detect_sleep_in_async": False}, "rs", ".rs", "blocking-async"), ("nesting", {"max_nesting_depth": 2}, "ts", ".ts", "nesting"),
+    ("srp", {"max_methods": 3}, "py", ".py", "srp"), ("magic_numbers", {"allowed_numbers": [0, 1, 2, 4242]}, "py", ".py", "magic-numbers"),
+    ("lbyl", {"detect_dict_key": False}, "py", ".py", "lbyl"), ("print_statements", {"enabled": False}, "ts", ".ts", "improper-logging"),
+    ("collection_pipeline", {"min_continues": 3}, "py", ".py", "pipeline"), ("performance", {"enabled": False}, "py", ".py", "perf"), ("method_property", {"enabled": False}, "py", ".py", "method-property"),
+]
 OTHER = {  # further VALID settings used only to perturb OTHER linters' sections (C15's domain: every section valid)
     "nesting": [{"enabled": False}, {"max_nesting_depth": 9}, {"max_nesting_depth": 1, "typescript": {"max_nesting_depth": 6}}],
     "srp": [{"enabled": False}, {"max_methods": 1}, {"max_loc": 5}],
@@ -195,16 +212,22 @@ def wrong_typed(r, sec: dict) -> dict:
 def make_configs(r):
     base = {}
     for pkg in VALID:
-        if r.random() < 0.45:
+        if r.random() < 0.4:
             base[pkg] = r.choice(VALID[pkg])
     if r.random() < 0.3:
         base.setdefault("dry", VALID["dry"][0])
     pert = dict(base)
     touched = r.sample(sorted(OTHER), r.choice([0, 1, 1, 2, 2, 3, 5]))
     for pkg in touched:
-        pert[pkg] = r.choice(OTHER[pkg] + VALID.get(pkg, []))
-        if r.random() < 0.4:
-            pert[pkg] = wrong_typed(r, pert[pkg])
+        op = r.random()
+        if op < 0.2:
+            pert.pop(pkg, None)                 # the whole section absent
+        elif op < 0.35:
+            pert[pkg] = {}                      # present but empty
+        else:
+            pert[pkg] = r.choice(OTHER[pkg] + VALID.get(pkg, []))
+            if r.random() < 0.4:
+                pert[pkg] = wrong_typed(r, pert[pkg])
     return base, pert, sorted(touched)
 
 
@@ -263,6 +286,35 @@ def grid_groups(cmds_all):
                                   ("ts", ".ts", {"magic_numbers": {"allowed_numbers": 7}}, ["print-statements", "srp", "string-concat-loop"])):
         out.append({"i": f"grid:{len(out)}", "kind": kind, "stem": "typed", "ext": ext, "data_hex": _fixed_content(kind).encode().hex(), "base": {},
                     "pert": pert, "touched": sorted(pert), "fixed_cmds": cmds, "subprocess_cmds": []})
+    # extension-less files whose shebang names another interpreter, with content of that interpreter's language
+    for head in ("#!/usr/bin/env node\n", "#!/usr/bin/env deno run\n", "#!/usr/bin/env ts-node\n", "#!/bin/bash\n", "#!/usr/bin/env ruby\n"):
+        out.append({"i": f"grid:{len(out)}", "kind": "ts", "stem": "cli", "ext": "", "data_hex": (head + _fixed_content("ts")).encode().hex(), "base": {}, "pert": {},
+                    "touched": [], "fixed_cmds": ["nesting", "srp", "magic-numbers", "improper-logging"], "subprocess_cmds": []})
+    for head in ("#!/usr/bin/env rust-script\n", "#!/usr/bin/env node\n"):
+        out.append({"i": f"grid:{len(out)}", "kind": "rs", "stem": "cli", "ext": "", "data_hex": (head + _fixed_content("rs")).encode().hex(), "base": {}, "pert": {},
+                    "touched": [], "fixed_cmds": ["unwrap-abuse", "clone-abuse", "nesting"], "subprocess_cmds": []})
+    # presence / absence of a whole FOREIGN section while the own section holds a visible non-default option
+    for n, (pkg, opt, kind, ext, cmd) in enumerate(OWN_VISIBLE):
+        i = PKG_ORDER.index(pkg)
+        others = [PKG_ORDER[(i + 1) % len(PKG_ORDER)], PKG_ORDER[i - 1], "unwrap_abuse" if pkg != "unwrap_abuse" else "clone_abuse"]
+        y = others[n % 3]
+        ysec = (VALID.get(y) or OTHER[y])[0]
+        everyone = {z: {} for z in PKG_ORDER if z != pkg}
+        for base, pert in (({pkg: opt}, {pkg: opt, y: {}}), ({pkg: opt, y: ysec}, {pkg: opt}), ({pkg: opt}, {pkg: opt, y: ysec}),
+                           ({pkg: opt}, {pkg: opt, **everyone})):     # every other section present (empty) at once
+            y = y if len(pert) <= 2 else "*"
+            out.append({"i": f"grid:{len(out)}", "kind": kind, "stem": "own", "ext": ext, "data_hex": _fixed_content(kind).encode().hex(), "base": base, "pert": pert,
+                        "touched": [z for z in PKG_ORDER if z != pkg] if y == "*" else [y], "fixed_cmds": [cmd], "subprocess_cmds": []})
+    # several extension-less files of different kinds in ONE run, both orders and as a directory: every file is
+    # classified on its own (a python-shebang script next to a plain file, a node script, a bash script)
+    parts = {"script": "#!/usr/bin/env python3\n" + _fixed_content("py"), "notes": "# plain notes, no shebang\n" + _fixed_content("py"),
+             "runner": "#!/usr/bin/env node\n" + _fixed_content("ts"), "job": "#!/bin/bash\n" + _fixed_content("py")}
+    for combo, mode in ((["script", "notes"], "files"), (["notes", "script"], "files"), (["runner", "script", "job"], "files"),
+                        (["job", "notes", "script"], "files"), (["notes", "script", "runner"], "dir")):
+        for me in combo:
+            out.append({"i": f"grid:{len(out)}", "kind": "py", "stem": me, "ext": "", "data_hex": parts[me].encode().hex(), "base": {}, "pert": {}, "touched": [],
+                        "fixed_cmds": ["nesting", "lbyl", "magic-numbers", "improper-logging", "srp"], "subprocess_cmds": [],
+                        "project": [[x, parts[x].encode().hex()] for x in combo], "paths_mode": mode})
     own = {".py": "py", ".js": "ts", ".ts": "ts", ".tsx": "ts", ".jsx": "ts", ".rs": "rs", ".java": "py", ".go": "rs"}
     other = {"py": "rs", "ts": "py", "rs": "ts"}
     for ext in EXT_MAPPED:
@@ -373,7 +425,7 @@ def _section_rejections(loaded: dict):
 _runner = None
 
 
-def _cli_inprocess(root: Path, cmd: str):
+def _cli_inprocess(root: Path, cmd: str, paths=("src",)):
     """run `thailint <cmd> --format json src` through click (real command function, filters, formatter, exit code)"""
     global _runner
     from click.testing import CliRunner
@@ -383,12 +435,12 @@ def _cli_inprocess(root: Path, cmd: str):
     if _runner is None:
         _runner = CliRunner()
     os.chdir(root)
-    res = _runner.invoke(cli, ["--project-root", str(root), *cmd.split(" "), "--format", "json", "src"],
+    res = _runner.invoke(cli, ["--project-root", str(root), *cmd.split(" "), "--format", "json", *paths],
                          env={"HOME": str(root), "XDG_CONFIG_HOME": str(root / ".config"), "NO_COLOR": "1"})
     return res.exit_code, res.stdout, (res.stderr or "") + (repr(res.exception) if res.exception and not isinstance(res.exception, SystemExit) else "")
 
 
-def _outcome(rc, so, se, names):
+def _outcome(rc, so, se, names, only_mine=False):
     from harness.common import parse_json_violations
     if rc == 2 and "Error during linting" in (se + so):
         m = re.search(r"Error during linting: (.*)", se + so)
@@ -398,6 +450,8 @@ def _outcome(rc, so, se, names):
         return {"error": f"rc={rc} stdout={so[:300]!r} stderr={se[-400:]!r}"}
     if (rc == 1) != bool(vs):
         return {"error": f"exit code {rc} with {len(vs)} violations"}
+    if only_mine:   # other files of the same run are judged by their own group
+        vs = [v for v in vs if os.path.basename(str(v["file_path"])) in names]
     return {"ok": sorted(_norm(v, names) for v in vs)}
 
 
@@ -447,6 +501,15 @@ def run_group(g):
         # the run under test: variant names, perturbed configuration
         root = d / "proj"
         _write_project(root, names, data, g["pert"])
+        paths = ("src",)
+        if g.get("project"):
+            order = []
+            for stem, hx in g["project"]:
+                for suffix in ("_a", "_b"):
+                    (root / "src" / (stem + suffix)).write_bytes(bytes.fromhex(hx))
+                    order.append("src/" + stem + suffix)
+            if g.get("paths_mode") == "files":
+                paths = tuple(order)
         from src.linter_config.loader import LinterConfigLoader
         from src.orchestrator.core import Orchestrator
         loaded = LinterConfigLoader().load(root / ".thailint.yaml")
@@ -456,14 +519,14 @@ def run_group(g):
         out["runtime_rules"] = sorted(r.rule_id for r in o.registry.list_all())
         out["runtime_pkg"] = {r.rule_id: type(r).__module__.split(".")[2] for r in o.registry.list_all()}
         for cmd in g["cmds"]:
-            rc, so, se = _cli_inprocess(root, cmd)
-            out["cmds"][cmd] = _outcome(rc, so, se, names)
+            rc, so, se = _cli_inprocess(root, cmd, paths)
+            out["cmds"][cmd] = _outcome(rc, so, se, names, only_mine=bool(g.get("project")))
             own = [f for f in _drain(flog) if out["runtime_pkg"].get(str(f.get("rule"))) == CMD_OWNER[cmd][0]]
             if own and "ok" in out["cmds"][cmd]:
                 out["cmds"][cmd] = {"error": f"a rule of the command's own linter failed internally (swallowed): {own[:2]}"}
         for cmd in g.get("subprocess_cmds", []):
-            rc, so, se = run_cli([*cmd.split(" "), "--format", "json", "src"], cwd=root)
-            out["sub"][cmd] = _outcome(rc, so, se, names)
+            rc, so, se = run_cli([*cmd.split(" "), "--format", "json", *paths], cwd=root)
+            out["sub"][cmd] = _outcome(rc, so, se, names, only_mine=bool(g.get("project")))
         os.chdir("/")
     return out
 
@@ -658,6 +721,9 @@ def run(tier: str, seed: int, replay: str | None = None) -> int:
                 "linter command (22 incl. perf --rule variants) runs on it through click under a configuration whose sections of OTHER "
                 "linters were perturbed (arbitrary settings the config classes do not reject: other thresholds, disabling, per-language overrides, other path rules, and wrongly typed values - string for int, list for scalar, null - which make the foreign rule fail internally); expected output = findings of the command's "
                 "own rules in an unfiltered reference run on canonically named copies (.py/.ts/.js/.rs) under the unperturbed configuration. "
+                "Deterministic grids add: every first-line variant (python, node, deno, bash, ruby, python as part of another word) on extension-less names; every mapped "
+                "extension in both cases with own/foreign content; a foreign section added empty / added non-empty / removed while the own section holds a visible "
+                "non-default option; several extension-less files of different kinds in one run (both orders, as paths and as a directory). "
                 "A case (project, config, command) is non-trivial when the reference runs contain at least one finding of a rule the "
                 "command does not own (something could leak); distinct = distinct (content, file name, configuration, command)")
     chk.trusted_base += [
